@@ -43,6 +43,7 @@ func init() {
 const tuPkg = "pkg/timeutil."
 
 func runC13(c *eng.Ctx) {
+	acceptedIntervalsArePositive(c)
 	rowsInsideFirstRowsFamilyRange(c)
 	rollupSlotBaseIsTheFamilyStart(c)
 	calendarSkeleton(c)
